@@ -49,7 +49,7 @@ def analyse(rep, prog, oks):
     href = haversine_refs()
     prev = ("existing:position.latitude", "existing:position.longitude")
     jref = haversine_refs(prev, ("cpr_lat", "cpr_lon")) + haversine_refs(("cpr_lat", "cpr_lon"), prev)
-    n_gp = n_false = n_pub = n_jump = 0
+    n_gp = n_false = n_pub = n_jump = n_acc_clear = 0
     seen_parity = set()
     range_reject = jump_reject = False
     for label in sorted(labels):
@@ -111,6 +111,12 @@ def analyse(rep, prog, oks):
             elif rv == 1 and gps:
                 pos = coords.fields[cn.index("position")] if "position" in cn else None
                 kd = coords.fields[cn.index("kilo_distance")] if "kilo_distance" in cn else None
+                vac = [e["vacant"] for e in o.events if e["kind"] == "map_vacancy"]
+                emptied = isinstance(coords, AdtVal) and all(
+                    (isinstance(f, ArrayVal) and f.elems is not None and all(is_none(x) for x in f.elems)) or is_none(f) for f in coords.fields)
+                if emptied and not (vac and vac[0]):
+                    n_acc_clear += 1
+                    rep.violation("R2", "accept:record-cleared", "%s: the candidate passed both plausibility tests, yet a path ends with the whole position record emptied (stored reports lost although nothing was implausible)" % label.split("/")[0])
                 if is_some(pos) and isinstance(pos.fields[0], AdtVal) and "cpr_lat" in term_syms(getattr(pos.fields[0].fields[0], "term", None)):
                     n_pub += 1
                     rep.instance(r3, "%s|publish|%s" % (label, [g["op"] for g in guards]),
